@@ -13,7 +13,7 @@ LINE_FUNCS = ["new", "newchannel", "remote_exec", "load_channel", "_no_longer_op
 
 def run(ctx):
     rng = random.Random(ctx.seed + 18)
-    mc = gwmodel.check(ctx, ["GW_data"] if ctx.quick else ["GW_data", "GW_data_big"], mutants=[])
+    mc = gwmodel.check(ctx, [("MCChanIds", "CI"), "GW_data"] if ctx.quick else [("MCChanIds", "CI"), ("MCChanIds", "CI_big"), "GW_data", "GW_data_big"], mutants=[("MCChanIds", "CI_nolock")])
     progs = gwprograms.c18_programs(rng, 8 if ctx.quick else 60)
     opts = [{"post_yields": True}, {"post_yields": True, "chunking": "random"}, {"post_yields": False},
             {"post_yields": True, "line_level": LINE_FUNCS}]
